@@ -49,7 +49,7 @@ Theorem compression_exact c n w w' :
   WGood c w -> name_ok n -> acn c n w = WOk w' ->
   decode_name (w_buf w') (mlen (w_buf w)) (mlen (w_buf w')) = Ok (n, mlen (w_buf w')).
 Proof.
-  intros K (TB & SI & (CS & CT & CH) & L) [Hv Hw] H.
+  intros K (TB & SI & (CS & CT & CH & CU) & L) [Hv Hw] H.
   assert (HN : NameIn (w_buf w') (fun i => 12 <= i) (mlen (w_buf w)) (mlen (w_buf w)) n (mlen (w_buf w'))).
   { unfold acn in H. destruct K as [K|K]; rewrite K in H.
     - apply append_slice_ok in H as [B _]. rewrite B, mlen_app.
@@ -69,7 +69,7 @@ Proof.
   intros H. destruct (init_inv c s0 H) as ((TB & SI & L & _) & _).
   split; [exact TB|]. split; [exact SI|]. split; [|exact L].
   unfold init in H. destruct (append_slice c _ empty_ws) as [w| | |] eqn:E; try discriminate. injection H as <-.
-  apply append_slice_ok in E as [_ (a1 & a2 & a3)]. cbn [b_w]. unfold CInv. rewrite a1, a2, a3. cbn. auto.
+  apply append_slice_ok in E as [_ (a1 & a2 & a3)]. cbn [b_w]. unfold CInv, HU. rewrite a1, a2, a3. cbn. repeat split; auto. intros; contradiction.
 Qed.
 
 (* non-vacuity: a case-folding reuse under the static compressor *)
